@@ -254,6 +254,17 @@ class cpu_watchdog:
         return False
 
 
+def mk_dur_via(r, via=None):
+    """mk_dur, or (via == "parse") the same duration as DurationParser reads it from its designator text: components that a
+    constructor call gives as ints arrive as floats (PT1H -> hours=1.0), which must make no difference."""
+    single = all(v >= 0 for v in r.values()) or all(v <= 0 for v in r.values())
+    if via == "parse" and single and all(float(v).is_integer() for v in r.values()):
+        from harness import render
+        from metomi.isodatetime.parsers import DurationParser
+        return DurationParser().parse(render.dur_desc_text(r))
+    return mk_dur(r)
+
+
 # --------------------------------------------------------------------------- recorder
 class Recorder:
     """Collects events (ints / strings / bools / lists / dicts only; no null, no floats)."""
